@@ -309,6 +309,17 @@ def applyOne (s : FState) (a : App) : FState :=
   | .wraps => { gen := s.gen + 1, dict := d, journal := s.journal ++ [call] }
   | .fresh => { gen := s.gen + 1, dict := [], journal := s.journal ++ [call] }
 
+/-- the configured decorators of a program, in the order in which the factories were called (`get_index = route('/index')`,
+    `get_about = route('/about')`, …): `decorator(value)` returns a NEW function `fun` that closes over `value` (and over the factory's
+    decorator type / transformation) — calling the factory again makes another closure and leaves the earlier ones alone -/
+abbrev Confs := List App
+
+/-- `decorator(value)`: one more configured decorator -/
+def configure (confs : Confs) (a : App) : Confs := confs ++ [a]
+
+/-- the k-th configured decorator, whenever it is applied -/
+def configured (confs : Confs) (k : Nat) : Option App := confs[k]?
+
 def applyApps (apps : List App) : FState := apps.foldl applyOne ⟨0, [], []⟩
 
 /-! ## `get_decorated_functions` -/
